@@ -68,6 +68,15 @@ const STATEMENTS: &[(&str, &[&str])] = &[
     ("c := mut int|float 0", &["c"]),
     ("x := [y, y]", &["x"]),
     ("y := match x { v: [int] => 1, v: [int|float] => 2, v: [any] => 3, => 4, }", &["y"]),
+    // binders spelled like a top-level name, in an input of their own: the name they bind is gone
+    // after the construct, on both routes
+    ("if x: int = 7 { }", &[]),
+    ("y := if x: int = 7 { x } else { 0 }", &["y"]),
+    ("while x: int = 7 { break }", &[]),
+    ("y := match 7 { x: int => x, => 0, }", &["y"]),
+    ("for x in [7]~ { }", &[]),
+    ("{ (x, y) := (7, 1) }", &[]),
+    ("y := [7]~ @ (x: int) -> int { return x } $]", &["y"]),
 ];
 
 fn dump_vars(interp: &Interpreter, names: &BTreeSet<String>) -> String {
